@@ -174,7 +174,10 @@ def prefetch(keys):
     for i in range(0, len(keys), 6):
         jobs = [(k, _spawn(*k)) for k in keys[i:i + 6]]
         for k, j in jobs:
-            _REF[k] = _collect(j)
+            try:
+                _REF[k] = _collect(j)
+            except Exception:   # reported by the cases that need this reference
+                pass
 
 
 def _child_main(argv):
